@@ -15,7 +15,11 @@ use crate::{
     PublishData, SubscriptionOpts,
 };
 use bytes::BytesMut;
-use core::sync::atomic::{AtomicU16, AtomicU32, Ordering};
+#[cfg(feature = "verif")]
+use crate::verif::{AtomicU16, AtomicU32};
+use core::sync::atomic::Ordering;
+#[cfg(not(feature = "verif"))]
+use core::sync::atomic::{AtomicU16, AtomicU32};
 use futures::{
     channel::{mpsc, oneshot},
     future, StreamExt,
@@ -32,6 +36,15 @@ pub struct ContextHandle {
 }
 
 impl ContextHandle {
+    /// Verification hook: presets the shared packet identifier and subscription identifier
+    /// counters, so that short runs can start next to the wrap-around.
+    ///
+    #[cfg(feature = "verif")]
+    pub fn verif_set_next_ids(&self, packet_id: u16, sub_id: u32) {
+        self.packet_id.store(packet_id, Ordering::Relaxed);
+        self.sub_id.store(sub_id, Ordering::Relaxed);
+    }
+
     /// Performs graceful disconnection with the broker by sending the
     /// [Disconnect](https://docs.oasis-open.org/mqtt/mqtt/v5.0/os/mqtt-v5.0-os.html#_Toc3901205) packet.
     ///
